@@ -1,5 +1,6 @@
-"""C03 - orbit propagation: batch consistency, restart loop / output grid of propagate and propagateBulk, epoch bookkeeping,
-Lagrange-coefficient algebra of the universal-variable Kepler solver.  (Numerical accuracy of the integration is outside.)"""
+"""C03 - orbit propagation: batch consistency, restart loop / output grid of propagate and propagateBulk, epoch bookkeeping (derivative, dynamics
+factory on a running clock), history independence of a reused dynamics object, Lagrange-coefficient algebra of the universal-variable Kepler
+solver.  (Numerical accuracy of the integration is outside.)"""
 from __future__ import annotations
 
 import copy
@@ -20,7 +21,9 @@ TECHNIQUE = ("the real Celestial.propagate / propagateBulk / _prepEvents / _appl
              "symx/ext_c15.py whose step ends, event roots and numpy.spacing are solver variables, so start/end times, output grids, event times, states and impulses are "
              "all solver variables and every feasible path of the restart loops is explored; per path z3 proves a ring identity that exposes the integrated span, the "
              "number of times each impulse was applied and when, and then decides the claims about them in linear arithmetic; batch-vs-separate and epoch-split "
-             "invariance are decided as equalities of the terms returned by the real propagate(); the Kepler solver's returned state is decomposed into its Lagrange "
+             "invariance are decided as equalities of the terms returned by the real propagate(); the real dynamicsFactory() is run on a real ScenarioClock object whose "
+             "start date and elapsed time are solver variables (ScenarioTime / JulianDate re-based onto the Real proxy) and the dynamics it returns is propagated; a used "
+             "dynamics object is compared with a fresh one over two arbitrary intervals (every path of the real code, so hidden per-object state shows up as a fork); the Kepler solver's returned state is decomposed into its Lagrange "
              "coefficients, f*gdot - fdot*g = 1 is decided by nlsat over scalar cut variables (Stumpff values constrained by their defining identity) and "
              "conservation of angular momentum follows by a ring identity; counterexamples are replayed on the real code with the real scipy")
 FLOAT_SEMANTICS = ("Real-ideal for states and times (the code's own floating-point guards are kept: fpe_equals compares with finfo(float).resolution, numpy.spacing and "
@@ -37,6 +40,11 @@ ENCODED = [
     "resonaate.dynamics.special_perturbations:SpecialPerturbations._getSolarRadiationPressureAcceleration",
     "resonaate.dynamics.special_perturbations:_getThirdBodyAcceleration",
     "resonaate.dynamics.special_perturbations:_getGeneralRelativityAcceleration",
+    "resonaate.dynamics:dynamicsFactory",
+    "resonaate.dynamics.special_perturbations:SpecialPerturbations.__init__",
+    "resonaate.dynamics.special_perturbations:calcSatRatio",
+    "resonaate.scenario.clock:ScenarioClock.julian_date_epoch",
+    "resonaate.physics.time.stardate:ScenarioTime.convertToJulianDate",
     "resonaate.dynamics.integration_events.scheduled_impulse:ScheduledImpulse.__call__",
     "resonaate.dynamics.integration_events.scheduled_impulse:ScheduledImpulse.__init__",
     "resonaate.dynamics.integration_events.scheduled_impulse:ScheduledECIImpulse.getStateChange",
@@ -63,6 +71,10 @@ BOUNDS = {
               f"an impulse; the integrated span, the application count of each impulse and its application time are compared within {float(TOL_T)} s. An impulse exactly on the START "
               "instant of a window may be applied or not (0 or 1 times, state consistent with the count): which window the instant belongs to is the caller's convention",
     "states": "O1: |r| in [R+200 km, 10 R], velocity components in [-12, 12] km/s; O2: every real state (free-motion world); O3: jd0 in [2400000.5, 2500000.5], t in [0, 2^20] s",
+    "factory": "O3-factory: spacecraft under special perturbations (Sun + Moon, SRP, relativity, EGM96 4x4: the real configuration objects, concrete); clock start date jd0 in "
+               "[2400000.5, 2500000.5], clock reading D in [0, t0], start-date shift s in [-2^20, D] s, t0 < tf in [0, 2^20] s, one integrator step per call, K = 1",
+    "reuse": "O3-reuse: first call propagate (K = 1; thorough also K = 2 and propagateBulk with one intermediate output time) over any [t0, tf], second call propagate over any [u0, uf] "
+             "(before, inside, after the first; all times in [0, 2^20] s), other state; no events; one integrator step per call",
     "kepler": "O4: bound orbits with alpha = 2/|r| - v^2/mu >= 1e-5 /km (a <= 1e5 km), |r| in [6500, 1e5] km, |v| in [0.1, 12] km/s, any r.v, tof in [1, 86400] s, mu in [1e3, 1e6]; "
               "exit of the Newton loop at its first test with an exact fixed point",
 }
@@ -79,6 +91,10 @@ OUTSIDE = [
     "times above 2^20 s (times from 0 are inside: numpy.spacing is any value in (0, 2^-33])",
     "1-D states in propagateBulk with events (documented input is (6, K)); the integrator method strings (RK45/DOP853 are passed through to solve_ivp untouched: checked concretely in O2-noevent)",
     "the values of the providers inside the perturbed derivative (ephemerides, reduction, geopotential: C13/C04); O3 decides only which epoch they are asked for",
+    "O3-factory: the calendar attributes of the clock (datetime_start / datetime_epoch: the symbolic clock has none, a factory that reads them for a spacecraft ends in the no-exception item "
+    "and is judged by the replay); ground facilities (Terrestrial: C04/C09); who calls the factory when (Scenario.addTarget / addSensor, event handling)",
+    "O3-reuse: state carried between calls through scheduled events / finite burns (O2 builds a new TwoBody per case); module-level caches of the providers (lru_cache in the ephemeris / "
+    "EOP loaders: provider stubs are pure functions of their arguments); a carried state whose effect stays below 1e-9 km in the replay (e.g. a memo at most a few seconds old)",
 ]
 ASSUMPTIONS = [
     "solve_ivp -> symx.ext_c15.SolveIvpContract (event protocol of scipy 1.18.1 ivp.py, hash-pinned; one explicit stage per step, linear dense output; R1 brentq never returns an isolated "
@@ -93,6 +109,12 @@ ASSUMPTIONS = [
     "O1 / O3: the solve_ivp calls that are compared take the same steps (the k-th interior step end of every call on a path is one solver variable)",
     "counterexample search only (never a proof): when nlsat gives no verdict on an open equality of O1 / O3, states and provider outputs are pinned to ordinary rationals and the sqrt "
     "contracts are widened by 1e-12 (relative); O2: a refuted claim is searched again with event times >= 0.25 s away from grid times so that the replay's trajectory comparison sees it",
+    "O3-factory: ScenarioClock built with object.__new__ (its constructor writes one Epoch row per step to the database) and the attributes the constructor sets (no calendar attributes in "
+    "the symbolic run); ScenarioTime / JulianDate -> the real class bodies re-based onto the Real proxy (symx.timeenv.rebase), `float` inside stardate.py and resonaate/dynamics/__init__.py "
+    "keeps proxies; the python float 1/(24*3600) inside convertToJulianDate is taken at its exact rational value, hence the 1e-9 d tolerance on epochs; configuration objects are real and concrete",
+    "O3-reuse: counterexample search only: intervals pinned to four ordinary shapes (REUSE_PINS), states and provider outputs (pairwise different) pinned, sqrt contracts widened by 1e-12; "
+    "each candidate is a solver model of the path; the first one the real code reproduces (else the last one) is the one reported",
+    "O3-factory: counterexample search only: a refuted claim is searched again with jd0 inside the shipped EOP table, D >= 1 h, s and D - s >= 600 s so that the replay can run the real providers",
     "O3-epoch-fp: JulianDate -> capture of its argument (execution of _differentialEquation stops there)",
     "O4: norm(r0), norm(v0), vdot(r0, v0) -> scalar cut variables R0 > 0, V0 > 0, S with S^2 <= R0^2 V0^2; universalC2C3 -> cut variables c2, c3 with the Stumpff identity "
     "1 - 2 c2 + psi c2^2 - 2 psi c3 + psi^2 c3^2 = 0 (cos^2 + sin^2 = 1 resp. cosh^2 - sinh^2 = 1 written in c2, c3); numpy.isclose(a, b, rtol=0, atol) -> |a - b| <= atol, the loop's "
@@ -100,10 +122,11 @@ ASSUMPTIONS = [
     "replays: real TwoBody / SpecialPerturbations with the real scipy; a wrapper (not a replacement) around solve_ivp records the integrated spans and event roots; EventStack -> list",
 ]
 LEVEL_TEXT = ("Bounded symbolic verification of the data flow around the integrator: layout/decoupling of batched states through the real propagate(), the restart loops of propagate and "
-              "propagateBulk over all real start/end/output/event times under a contract model of solve_ivp, the epoch handed to the perturbation providers, and the Lagrange-coefficient "
+              "propagateBulk over all real start/end/output/event times under a contract model of solve_ivp, the epoch handed to the perturbation providers (also for dynamics built by "
+              "dynamicsFactory on a clock that has advanced), independence of a call from the calls the object served before, and the Lagrange-coefficient "
               "algebra of the Kepler solver. The numerical integration itself is outside.")
 LEVEL_NOTE = ("solve_ivp is a contract stub (hash-pinned); integration accuracy, Kepler-exactness and conservation of the integrated trajectory are outside; K <= 3, <= 4 output times, "
-              "<= 3 integrator steps per call, times in [8, 2^20] s. Found with this harness (reported for repair): an impulse exactly on the boundary between two consecutive "
+              "<= 3 integrator steps per call, times in [8, 2^20] s; O3-factory / O3-reuse: one integrator step per call, no events. Found with this harness (reported for repair): an impulse exactly on the boundary between two consecutive "
               "propagate() calls was applied twice (prunePropagateEvents kept it); propagateBulk raised ValueError as soon as one of >= 2 scheduled events fired.")
 
 
@@ -610,6 +633,380 @@ def o3_epoch_fp(rep):
 
 
 # ------------------------------------------------------------------------------------------------------------------------
+# O3-factory: the dynamics object handed out by the real dynamicsFactory() for a clock that has already advanced
+# ------------------------------------------------------------------------------------------------------------------------
+JD_VIS = (2457000, 2459500)  # start dates for which the shipped EOP table has rows (counterexample search / replays only)
+_CFG = [None]
+
+
+def _factory_cfgs():
+    """Real, concrete configuration objects of a spacecraft under special perturbations (Sun + Moon, SRP, relativity)."""
+    if _CFG[0] is None:
+        from resonaate.scenario.config.agent_config import AgentConfig
+        from resonaate.scenario.config.geopotential_config import GeopotentialConfig
+        from resonaate.scenario.config.perturbations_config import PerturbationsConfig
+        from resonaate.scenario.config.propagation_config import PropagationConfig
+
+        agent = AgentConfig(id=7, name="late", state={"type": "eci", "position": X_LEO[:3], "velocity": X_LEO[3:]}, platform={"type": "spacecraft"})
+        pert = PerturbationsConfig(third_bodies=SP_CFG["third_bodies"], solar_radiation_pressure=SP_CFG["srp"], general_relativity=SP_CFG["gr"])
+        _CFG[0] = (agent, PropagationConfig(), GeopotentialConfig(), pert)
+    return _CFG[0]
+
+
+def _bare_clock(jd_start, time):
+    """A real ScenarioClock without its constructor's database traffic (one Epoch row per step): the attributes the constructor sets are set
+    directly; the real properties (julian_date_epoch, ...) are what the factory reads.  The symbolic clock has no calendar attributes."""
+    from resonaate.scenario.clock import ScenarioClock
+
+    ST = type(time)
+    clk = object.__new__(ScenarioClock)
+    clk.julian_date_start = jd_start
+    clk.time = time
+    clk.initial_time = ST(0)
+    clk.time_span = clk.stop_time = ST(2 * T_MAX)
+    clk.dt_step = ST(60)
+    clk.julian_date_stop = clk.stop_time.convertToJulianDate(jd_start)
+    if isinstance(time, float):  # replays: the calendar attributes as well
+        import logging
+        from datetime import timedelta
+
+        from resonaate.physics.time.stardate import julianDateToDatetime
+
+        clk.datetime_start = julianDateToDatetime(jd_start)
+        clk.datetime_stop = clk.datetime_start + timedelta(seconds=float(clk.time_span))
+        clk.logger = logging.getLogger("resonaate")
+    return clk
+
+
+class _ClockWorld:
+    """ScenarioTime / JulianDate (float subclasses) re-based onto SReal (real method bodies, symx.timeenv.rebase) so that the
+    clock's elapsed time and start date are solver variables; `float` inside stardate.py keeps proxies."""
+
+    def __enter__(self):
+        import builtins
+
+        from resonaate.physics.time import stardate as SD
+        from symx.timeenv import rebase
+
+        class _SR(SReal):
+            __slots__ = ()
+
+            def __init__(self, t):
+                SReal.__init__(self, t.t if isinstance(t, SReal) else t)
+
+        self.ST, self.JD = rebase(SD.ScenarioTime, base=_SR), rebase(SD.JulianDate, base=_SR)
+
+        def fl(x):
+            return SReal(x.t) if isinstance(x, SReal) else builtins.float(x)
+
+        import resonaate.dynamics as DYN
+
+        self.cms = [shadow(SD, float=fl, ScenarioTime=self.ST, JulianDate=self.JD), shadow(DYN, float=fl)]
+        for c in self.cms:
+            c.__enter__()
+        return self
+
+    def clock(self, jd_start, time):
+        return _bare_clock(self.JD(jd_start), self.ST(time))
+
+    def __exit__(self, *a):
+        for c in reversed(self.cms):
+            c.__exit__(*a)
+        return False
+
+
+def replay_factory(d):
+    """Real dynamicsFactory on floats: a spacecraft created when the clock reads D seconds, its derivative at elapsed scenario time t >= D, against
+    (1) the epoch jd_start + t/86400 the providers have to be asked for and (2) the same absolute epoch split differently: a scenario whose start date
+    is shifted by s seconds (clock reading D - s) and a scenario that starts at the join epoch (clock reading 0), both through the same factory."""
+    import resonaate.dynamics as DYN
+    from resonaate.dynamics import special_perturbations as SP
+    from resonaate.physics.time.stardate import JulianDate, ScenarioTime
+
+    x = np.array(d.get("state", X_LEO), dtype=float).ravel()[:6]
+    jd0, D, t, s = float(d["jd0"]), float(d["D"]), float(d["t"]), float(d["s"])
+    cfgs = _factory_cfgs()
+    seen = []
+    real_jd = SP.JulianDate
+
+    def spy(v):
+        seen.append(float(v))
+        return real_jd(v)
+
+    try:
+        dyn = DYN.dynamicsFactory(*cfgs, _bare_clock(JulianDate(jd0), ScenarioTime(D)))
+        with shadow(SP, JulianDate=spy):
+            a = np.array(dyn._differentialEquation(t, x.copy()), dtype=float)
+        refs = {}
+        for name, shift in (("start date shifted by s", s), ("scenario started at the join epoch", D)):
+            if D - shift < 0:
+                continue
+            ref = DYN.dynamicsFactory(*cfgs, _bare_clock(JulianDate(jd0 + shift / 86400), ScenarioTime(D - shift)))
+            refs[name] = np.array(ref._differentialEquation(t - shift, x.copy()), dtype=float)
+    except Exception as e:  # noqa: BLE001
+        if type(e).__name__ == "MissingEOP":  # the shipped EOP table has no row for this date: the input cannot be replayed (not a reproduction)
+            return False, {"not replayable": f"{type(e).__name__}: {e}"[:300]}
+        return True, {"raised": f"{type(e).__name__}: {e}"[:300]}
+    want = jd0 + t / 86400
+    e_epoch = max(abs(v - want) for v in seen) if seen else float("inf")
+    e_acc = max([float(np.abs(a - b).max() / np.abs(a[3:]).max()) for b in refs.values()] or [0.0])
+    return (e_epoch > 2e-9 or e_acc > 1e-7), {"clock": {"jd_start": jd0, "time": D}, "t": t, "epochs passed to JulianDate": seen, "jd_start + t/86400": want, "epoch error (d)": e_epoch,
+                                              "relative acceleration difference to the other splits": e_acc, "splits compared": list(refs)}
+
+
+def o3_factory(rep):
+    """The perturbed dynamics the real dynamicsFactory() builds from a clock reading D >= 0 elapsed seconds: callers integrate over elapsed scenario
+    seconds (Agent.time = clock.time), so every provider has to be asked for clock.julian_date_start + t/86400, and the result must not depend on how
+    the absolute epoch is split between start date and clock reading, nor on whether the agent joined at D or was there from the start."""
+    import resonaate.dynamics as DYN
+    from resonaate.dynamics import celestial as CEL
+    from resonaate.dynamics import two_body as TBD
+
+    def run():
+        X, t0, tf = _o1_state(1)
+        jd0, D, s = real("jd0"), real("D"), real("s")
+        assume(jd0.t >= rv(2400000.5), jd0.t <= rv(2500000.5), D.t >= 0, D.t <= t0.t, s.t >= -T_MAX, s.t <= D.t)
+        ivp = SolveIvpContract(steps=(1,), max_calls=8)
+        _share_step_ends(cur(), ivp)
+        memo = _Memo()
+        cfgs = _factory_cfgs()
+        with _ClockWorld() as cw, shadow(CEL, solve_ivp=ivp, spacing=ivp.spacing, max=sym_max), _SPWorld(memo), shadow(TBD, empty_like=_el, norm=_nrm):
+            late = DYN.dynamicsFactory(*cfgs, cw.clock(jd0, D))
+            a = late.propagate(t0, tf, X)
+            n_first = len(memo.asked)
+            other = DYN.dynamicsFactory(*cfgs, cw.clock(jd0 + s / 86400, D - s))
+            b = other.propagate(t0 - s, tf - s, X)
+            first = DYN.dynamicsFactory(*cfgs, cw.clock(jd0, SReal(0)))
+            c = first.propagate(t0, tf, X)
+        return a, b, c, memo, n_first, (X, t0, tf, jd0, D, s), type(late).__name__
+
+    res = explore(run, max_paths=16, max_depth=200, branch_timeout_ms=10000)
+    done = 0
+    for i, r in enumerate(res):
+        lab = f"path#{i}"
+        jd0v, Dv, t0v, sv = (z3.Real(n) for n in ("jd0", "D", "t0", "s"))
+
+        def inputs(m, jd0v=jd0v, Dv=Dv, t0v=t0v, sv=sv):
+            return {"_replay": "factory", "jd0": mfloat(m, jd0v), "D": mfloat(m, Dv), "t": mfloat(m, t0v), "s": mfloat(m, sv),
+                    "state": [mfloat(m, z3.Real(f"x_{k}_0")) for k in range(6)]}
+
+        in_table = [jd0v >= JD_VIS[0], jd0v <= JD_VIS[1], t0v <= 86400]
+        visible = [in_table + [Dv >= 3600, sv >= 600, Dv - sv >= 600], in_table + [Dv - sv >= 600, sv <= -600], in_table]
+        kw = dict(inputs=inputs, replay=replay_factory)
+        if r.exc is not None:
+            import traceback
+
+            rep.note(f"{lab} raised: {''.join(traceback.format_exception(r.exc))[-500:]}")
+            _decide(rep, f"{lab}: no-exception [{type(r.exc).__name__}]", z3.BoolVal(False), r.constraints, visible, sample="factory + propagate do not raise inside the bounds", **kw)
+            if rep.status == "violation":
+                return  # fail fast: one replayed counterexample is enough
+            continue
+        a, b, c, memo, n_first, (X, t0, tf, jd0, D, s), kind = r.out
+        cons = r.constraints
+        if not memo.asked[:n_first]:
+            _decide(rep, f"{lab}: providers consulted [factory returned {kind}]", z3.BoolVal(False), cons, visible,
+                    sample="the dynamics built for the special-perturbations model consults the epoch-dependent providers", **kw)
+            if rep.status == "violation":
+                return
+            continue
+        tol = rv(EPOCH_TOL)
+        epoch = jd0.t + t0.t / 86400
+        _decide(rep, f"{lab}: epoch", z3.And(*[_near(x, epoch, tol) for _w, x in memo.asked[:n_first]]), cons, visible,
+                sample="dynamics built by dynamicsFactory while the clock reads D seconds: every provider inside the derivative at elapsed scenario time t is asked for "
+                       "clock.julian_date_start + t/86400 (within 1e-9 d)", **kw)
+        if rep.status == "violation":
+            return  # fail fast: one replayed counterexample is enough
+        for name, o in (("split-invariance", b), ("late-join", c)):
+            pairs = [(_zt(u), _zt(v)) for u, v in zip(np.asarray(a, dtype=object).ravel(), np.asarray(o, dtype=object).ravel())]
+            _decide(rep, f"{lab}: {name}", z3.And(*[x == y for x, y in pairs]), cons, visible,
+                    sample={"split-invariance": "factory(clock(jd0, D)).propagate(t, ..) equals factory(clock(jd0 + s/86400, D - s)).propagate(t - s, ..)",
+                            "late-join": "an agent created at clock reading D is propagated like one created at clock reading 0 of the same scenario"}[name], **kw)
+            if rep.status == "violation":
+                return
+        rep.prove(f"{lab}: one-epoch", z3.BoolVal(len(memo.epochs) == 1), [], sample="all three dynamics objects consult the providers at one and the same epoch", **kw)
+        rep.reachable(f"{lab}: reach (joined an hour after the start, start date shifted)", cons + [D.t >= 3600, s.t >= 600, t0.t >= D.t + 60], timeout_ms=30000)
+        done += 1
+    if not done and rep.status == "ok":
+        rep.error("reach", "no completed path")
+
+
+# ------------------------------------------------------------------------------------------------------------------------
+# O3-reuse: a dynamics object that has already served a call behaves like a fresh one (no state carried between calls)
+# ------------------------------------------------------------------------------------------------------------------------
+# counterexample search only: (first interval [t0, tf], second interval [u0, uf]) shapes a replay with the real integrator can see
+REUSE_PINS = [dict(t0=25200, tf=46800, u0=3600, uf=7200),  # the second interval lies hours before the first one
+              dict(t0=3600, tf=25200, u0=3630, uf=7230),  # the second interval starts just after the first one started, hours before it ended
+              dict(t0=3600, tf=3610, u0=3630, uf=7230),  # a short first interval, the second one starts within a minute of it
+              dict(t0=3600, tf=7200, u0=25200, uf=28800)]  # the second interval lies hours after the first one
+
+
+def replay_reuse(d):
+    """Real SpecialPerturbations + real scipy: one object serves [t0, tf] and is then asked for [u0, uf]; a fresh object is asked for [u0, uf] only.
+    The code is deterministic, so the two results agree to the last bit unless the object carries state from one call to the next."""
+    from resonaate.physics.time.stardate import JulianDate
+
+    jd0 = float(d["jd0"])
+    t0, tf, u0, uf = (float(d[k]) for k in ("t0", "tf", "u0", "uf"))
+    X, Y = np.array(d["first_state"], dtype=float), np.array(d["state"], dtype=float)
+    X = X[:, 0] if X.ndim == 2 and X.shape[1] == 1 else X
+    Y = Y[:, 0] if Y.ndim == 2 and Y.shape[1] == 1 else Y
+    try:
+        used = _sp_dynamics(JulianDate(jd0))
+        if d.get("first") == "bulk":
+            used.propagateBulk([t0, 0.5 * (t0 + tf), tf], X.reshape(6, -1).copy())
+        else:
+            used.propagate(t0, tf, X.copy())
+        b = np.array(used.propagate(u0, uf, Y.copy()), dtype=float)
+        c = np.array(_sp_dynamics(JulianDate(jd0)).propagate(u0, uf, Y.copy()), dtype=float)
+    except Exception as e:  # noqa: BLE001
+        if type(e).__name__ == "MissingEOP":  # the shipped EOP table has no row for this date: the input cannot be replayed (not a reproduction)
+            return False, {"not replayable": f"{type(e).__name__}: {e}"[:300]}
+        return True, {"raised": f"{type(e).__name__}: {e}"[:300]}
+    dev = float(np.abs(b - c).max())
+    return dev > 1e-9, {"first call": [t0, tf], "second call": [u0, uf], "max |used - fresh| (km, km/s)": dev, "used object": b.ravel().tolist()[:6], "fresh object": c.ravel().tolist()[:6]}
+
+
+def _pins_distinct(memo):
+    """Ordinary, pairwise different values for the provider outputs (one per distinct output, also for the same provider at another epoch)."""
+    base = {"E": [[Fraction(3, 5), Fraction(-4, 5), 0], [Fraction(4, 5), Fraction(3, 5), 0], [0, 0, 1]], "sun": [120000000, -80000000, -35000000],
+            "moon": [250000, 260000, 110000], "g": [Fraction(-8, 10 ** 6), Fraction(3, 10 ** 6), Fraction(5, 10 ** 6)], "nu": 1}
+    cs, seen = [], set()
+    for key, (_ts, v) in memo.tab.items():
+        flat = np.asarray(v, dtype=object).ravel()
+        vid = _zt(flat[0]).get_id()
+        if vid in seen:
+            continue
+        n = len(seen)
+        seen.add(vid)
+        b = np.array(base[key[0]], dtype=object) * Fraction(10 + n, 10 + 2 * n)
+        for q, val in zip(flat, np.asarray(b, dtype=object).ravel()):
+            cs.append(_zt(q) == rv(Fraction(val)))
+    return cs
+
+
+def _pin_state(X, k0=0):
+    cs = []
+    for j in range(X.shape[1]):
+        for i in range(6):
+            sgn = -1 if (i + j + k0) % 3 == 2 else 1
+            cs.append(X[i, j].t == rv(Fraction(round(X_LEO[i] * 1000 * sgn * (1 + Fraction(7 * (j + k0) + i, 100)))) / 1000))
+    return cs
+
+
+def o3_reuse(cases):
+    """used.propagate(u0, uf, Y) == fresh.propagate(u0, uf, Y) after `used` has served propagate(t0, tf, X) (or propagateBulk) for any two intervals
+    (the second one before, inside, after the first)."""
+
+    def fn(rep):
+        from resonaate.dynamics import celestial as CEL
+
+        ok, pin = pin_scipy()
+        if not ok:
+            rep.error("scipy-pin", f"the solve_ivp contract was read from another scipy: {pin}")
+            return
+        for first, K in cases:
+            name = f"{first}-K{K}"
+
+            def run(first=first, K=K):
+                X, t0, tf = _o1_state(K)
+                u0, uf, jd0 = real("u0"), real("uf"), real("jd0")
+                assume(u0.t >= T_MIN, uf.t >= u0.t + DT_MIN, uf.t <= T_MAX, jd0.t >= rv(2400000.5), jd0.t <= rv(2500000.5))
+                Y = reals("y", 6, K)
+                for j in range(K):
+                    n = _nrm(Y[:3, j])
+                    assume(n.t >= rv(_earth_R() + 200.0), n.t <= rv(10 * _earth_R()))
+                ivp = _Ivp(steps=(1,), max_calls=10)
+                _share_step_ends(cur(), ivp)
+                memo = _Memo()
+                with shadow(CEL, solve_ivp=ivp, spacing=ivp.spacing, max=sym_max, zeros=sym_zeros), _SPWorld(memo):
+                    used = _sp_dynamics(jd0)
+                    if first == "bulk":
+                        tm = real("tm")
+                        assume(tm.t >= t0.t + DT_MIN, tf.t >= tm.t + DT_MIN)
+                        used.propagateBulk([t0, tm, tf], X)
+                    else:
+                        used.propagate(t0, tf, X if K > 1 else X[:, 0])
+                    y = Y if K > 1 else Y[:, 0]
+                    b = used.propagate(u0, uf, y)
+                    c = _sp_dynamics(jd0).propagate(u0, uf, y)
+                return b, c, memo, (X, Y, t0, tf, u0, uf, jd0)
+
+            res = explore(run, max_paths=64, max_depth=400, branch_timeout_ms=10000)
+            done = 0
+            for i, r in enumerate(res):
+                lab = f"{name}#{i}"
+                names = ("jd0", "t0", "tf", "u0", "uf")
+
+                def inputs(m, K=K, first=first):
+                    return {"_replay": "reuse", "first": first, **{n: mfloat(m, z3.Real(n)) for n in names},
+                            "first_state": [[mfloat(m, z3.Real(f"x_{a}_{j}")) for j in range(K)] for a in range(6)],
+                            "state": [[mfloat(m, z3.Real(f"y_{a}_{j}")) for j in range(K)] for a in range(6)]}
+
+                kw = dict(inputs=inputs, replay=replay_reuse)
+                tv = {n: z3.Real(n) for n in names}
+                if r.exc is not None:
+                    import traceback
+
+                    rep.note(f"{lab} raised: {''.join(traceback.format_exception(r.exc))[-500:]}")
+                    rep.prove(f"{lab}: no-exception [{type(r.exc).__name__}]", z3.BoolVal(False), r.constraints, timeout_ms=60000, sample="a second call on a used object does not raise", **kw)
+                    continue
+                b, c, memo, (X, Y, t0, tf, u0, uf, jd0) = r.out
+                cons = r.constraints
+                b, c = np.asarray(b, dtype=object), np.asarray(c, dtype=object)
+                if b.shape != c.shape:
+                    rep.prove(f"{lab}: shape", z3.BoolVal(False), cons, sample="used and fresh object return the same shape", **kw)
+                    continue
+                pairs = [(_zt(u), _zt(v)) for u, v in zip(b.ravel(), c.ravel())]
+                goal = z3.And(*[x == y for x, y in pairs])
+                what = "a dynamics object that already served one interval returns for any other interval what a fresh object returns (no state carried between calls)"
+                v = refute(goal, cons, 30000)
+                if v.status == "unsat":
+                    rep._item(f"{lab}: used == fresh", "prove", v)
+                    rep.sample({"obligation": f"{rep.ob}:{lab}: used == fresh", "verdict": "unsat", "what": what})
+                else:
+                    # counterexample search with ordinary numbers: states and provider outputs (pairwise different) pinned, the two intervals pinned to one of
+                    # REUSE_PINS (shapes a replay with the real integrator can see); every candidate is a solver model of the path; the first one that the
+                    # real code reproduces (else the last one found) is handed to Report.prove as a point
+                    base = [tv["jd0"] == rv(SP_CFG["jd0"])] + _pin_state(X) + _pin_state(Y, 1) + _pins_distinct(memo)
+                    thr = rv(Fraction(1, 10 ** 9))
+                    far = z3.And(*[z3.And(x - y <= thr, y - x <= thr) for x, y in pairs])
+                    cand, stat = None, []
+                    for pin in REUSE_PINS:
+                        rel = _relaxed(r.path, cons) + base + [tv[n] == val for n, val in pin.items()]
+                        v2 = refute(far, rel, 60000)
+                        stat.append(v2.status)
+                        if v2.status != "sat":
+                            continue
+                        point = [dcl() == v2.model[dcl] for dcl in v2.model.decls() if dcl.arity() == 0 and z3.is_rational_value(v2.model[dcl])]
+                        cand = rel + point
+                        try:
+                            if replay_reuse(inputs(v2.model))[0]:
+                                break
+                        except Exception:  # noqa: BLE001  (Report.prove runs the replay again and records what happened)
+                            break
+                    if cand is not None:
+                        rep.prove(f"{lab}: used == fresh", goal, cand, timeout_ms=60000, sample=what, **kw)
+                    elif v.status == "sat":
+                        rep.prove(f"{lab}: used == fresh", goal, cons, timeout_ms=30000, sample=what, **kw)
+                    else:
+                        rep.undecided(f"{lab}: used == fresh", f"no verdict on the open query ({v.reason}); pinned, relaxed queries: {stat}")
+                if rep.status == "violation":
+                    return  # fail fast
+                done += 1
+            rep.note(f"{name}: paths={len(res)}")
+            if done:
+                r0 = next(r for r in res if r.exc is None)
+                t0v, tfv, u0v = z3.Real("t0"), z3.Real("tf"), z3.Real("u0")
+                rep.reachable(f"{name}: reach (second interval starts before the first one ended)", r0.constraints + [u0v >= t0v, u0v <= tfv - 3600], timeout_ms=30000)
+                rep.reachable(f"{name}: reach (second interval starts before the first one started)", r0.constraints + [u0v <= t0v - 3600], timeout_ms=30000)
+                rep.reachable(f"{name}: reach (second interval after the first)", r0.constraints + [u0v >= tfv + 60], timeout_ms=30000)
+            elif rep.status == "ok":
+                rep.error(f"{name}: reach", "no completed path")
+
+    return fn
+
+
+# ------------------------------------------------------------------------------------------------------------------------
 # O2: restart loops in the free-motion world
 # ------------------------------------------------------------------------------------------------------------------------
 class _FreeWorld:
@@ -924,8 +1321,11 @@ def _decide(rep, label, goal, cons, visible, timeout_ms=60000, sample=None, **kw
         if sample is not None:
             rep.sample({"obligation": f"{rep.ob}:{label}", "verdict": "unsat", "what": sample})
         return True
-    if visible and v.status == "sat" and refute(goal, list(cons) + list(visible), timeout_ms).status == "sat":
-        cons = list(cons) + list(visible)
+    if visible and v.status == "sat":
+        for vis in (visible if isinstance(visible[0], (list, tuple)) else [visible]):  # alternatives, most visible first
+            if refute(goal, list(cons) + list(vis), timeout_ms).status == "sat":
+                cons = list(cons) + list(vis)
+                break
     return rep.prove(label, goal, cons, timeout_ms=timeout_ms, sample=sample, **kw)
 
 
@@ -1264,7 +1664,7 @@ def o4_kepler(rep):
                 return True
             inside = abs(a - b) <= atol
             p = cur()
-            if refute(_zt(a) == _zt(b), p.constraints(), 30000).status == "unsat":  # proved equal: inside every tolerance
+            if refute(_zt(a) == _zt(b), p.constraints(), 90000).status == "unsat":  # proved equal: inside every tolerance
                 calls.append("proved")
                 return True
             return inside
@@ -1322,7 +1722,7 @@ def o4_kepler(rep):
 def replay_dispatch(d):
     """`./check C03 --replay <file>`: the replay that belongs to the item that produced the inputs."""
     return {"batch": replay_batch, "epoch": replay_epoch, "loop": replay_loop, "hang": replay_hang, "raises": replay_raises, "noevent": replay_noevent,
-            "kepler": replay_kepler}[d.get("_replay", "loop")](d)
+            "kepler": replay_kepler, "factory": replay_factory, "reuse": replay_reuse}[d.get("_replay", "loop")](d)
 
 
 def _prop_cases(K, zones=None):
@@ -1355,6 +1755,9 @@ def _obligation_table(tier):
         "O2-bulk-two": (o2_cases([dict(mode="bulk", ngrid=3, zones=zz, K=1) for zz in (("in0", "in1"), ("in1", "in0"), ("in0", "in0"), ("at1", "in1"))], tier),
                         "propagateBulk with two impulses (different output intervals, either order in the list; same interval; one on an output time)", 300),
         "O3-epoch": (o3_epoch, "perturbed derivative: providers asked for jd0 + t/86400; result invariant under the split (jd0 + s/86400, t - s)", 240),
+        "O3-factory": (o3_factory, "dynamics built by the real dynamicsFactory() while the clock reads D s: providers asked for julian_date_start + t/86400; start-date split / late-join invariance", 240),
+        "O3-reuse": (o3_reuse([("propagate", 1)] if tier == "quick" else [("propagate", 1), ("propagate", 2), ("bulk", 1)]),
+                     "history independence: a SpecialPerturbations object that served one interval returns for any other interval what a fresh object returns", 300),
         "O3-epoch-fp": (o3_epoch_fp, "double arithmetic of the epoch: within 1e-9 d of jd0 + t/86400; two splits agree within 2.5e-9 d", 120),
         "O4-kepler": (o4_kepler, "solveKeplerProblemUniversal: returned state = f r1 + g v1 ..., f gdot - fdot g = 1, angular momentum conserved", 300),
     }
